@@ -311,10 +311,13 @@ class Server:
         uid = id(fut)
 
         with self._pipeline_notfull:
-            if len(pipeline) >= self._capacity:
+            while len(pipeline) >= self._capacity:
+                # Re-check after every wake-up: another caller may have taken the
+                # freed slot before this one re-acquired the lock.
                 if backpressure:
                     raise ServerBacklogFull(len(pipeline))
-                if not self._pipeline_notfull.wait(timeout * 0.99):
+                t = timeout * 0.99 - (perf_counter() - t0)
+                if t <= 0 or not self._pipeline_notfull.wait(t):
                     raise ServerBacklogFull(len(pipeline), perf_counter() - t0)
 
             self._input_buffer.put((uid, x))
@@ -548,14 +551,17 @@ class AsyncServer:
         uid = id(fut)
 
         async with self._pipeline_notfull:
-            if len(pipeline) >= self._capacity:
+            while len(pipeline) >= self._capacity:
+                # Re-check after every wake-up: another caller may have taken the
+                # freed slot before this one re-acquired the lock.
                 if backpressure:
                     raise ServerBacklogFull(len(pipeline))
                     # If this is behind a HTTP service, should return
                     # code 503 (Service Unavailable) to client.
                 try:
                     await asyncio.wait_for(
-                        self._pipeline_notfull.wait(), timeout * 0.99
+                        self._pipeline_notfull.wait(),
+                        timeout * 0.99 - (perf_counter() - t0),
                     )
                 except (
                     asyncio.TimeoutError,
